@@ -351,7 +351,7 @@ def case_same_handle(c, res):
         if x < .6:
             layout = [not v if rnd.random() < .7 else v for v in layout]
             order = [v for g in range(groups) for v in (mix[g] if layout[g] else sep[g])]
-            m.reorder({v: i for i, v in enumerate(order)})
+            m.reorder(shuffled_dict({v: i for i, v in enumerate(order)}, rnd))
             tag = f'after reorder to {order}'
         elif x < .8:
             m.reorder()
